@@ -1,0 +1,41 @@
+// Copyright 2020-2025 Buf Technologies, Inc.
+//
+// Licensed under the Apache License, Version 2.0 (the "License");
+// you may not use this file except in compliance with the License.
+// You may obtain a copy of the License at
+//
+//      http://www.apache.org/licenses/LICENSE-2.0
+//
+// Unless required by applicable law or agreed to in writing, software
+// distributed under the License is distributed on an "AS IS" BASIS,
+// WITHOUT WARRANTIES OR CONDITIONS OF ANY KIND, either express or implied.
+// See the License for the specific language governing permissions and
+// limitations under the License.
+
+//go:build verif
+
+package bufmodule
+
+// Contracts for the gocv verifier (see /verif/DESIGN.md). Comment-only.
+//
+//@ trusted pure interface Digest
+//@ trusted pure interface bufcas.Digest
+//@ trusted func getFilesDigestForB5Digest(ctx, bucketWithStorageMatcherApplied) (r, err)
+//@   modifies heap, ghost.fail, ghost.sinkPaths
+//@   ensures err == nil ==> r != nil
+//@ trusted func bufcas.NewDigestForContent(reader, options) (r, err)
+//@   modifies heap
+//@   ensures err == nil ==> r != nil
+//@ trusted func NewDigest(digestType, bufcasDigest) (r, err)
+//
+// C08 / C02: the published b5 construction: SHAKE256 over the files digest followed by the SORTED strings of the
+// dependency digests (all of type b5), joined by newlines. Checked at the point the content is handed to the hash.
+//@ func getB5DigestForBucketAndDepDigests(ctx, bucketWithStorageMatcherApplied, depDigests) (r, err)
+//@   property C08 C02
+//@   modifies heap, ghost.fail, ghost.sinkPaths
+//@   closure 0 ensures err == nil ==> digest.Type() == DigestTypeB5 && r == digest.String()
+//@   assert before "digestOfDigests, err := bufcas.NewDigestForContent" files-digest-first: len(digestStrings) == 1 + len(depDigests) && digestStrings[0] == filesDigest.String()
+//@   assert before "digestOfDigests, err := bufcas.NewDigestForContent" deps-sorted: forall a int, b int :: 1 <= a && a < b && b < len(digestStrings) ==> digestStrings[a] <= digestStrings[b]
+//@   assert before "digestOfDigests, err := bufcas.NewDigestForContent" deps-all-b5: forall j int :: 0 <= j && j < len(depDigests) ==> depDigests[j].Type() == DigestTypeB5
+//@   assert before "digestOfDigests, err := bufcas.NewDigestForContent" deps-complete: forall j int :: 0 <= j && j < len(depDigests) ==> (exists a int :: 1 <= a && a < len(digestStrings) && digestStrings[a] == depDigests[j].String())
+//@   assert before "digestOfDigests, err := bufcas.NewDigestForContent" deps-only: forall a int :: 1 <= a && a < len(digestStrings) ==> (exists j int :: 0 <= j && j < len(depDigests) && digestStrings[a] == depDigests[j].String())
